@@ -266,13 +266,22 @@ Inductive op :=
 | Delete (txid : Z)
 | Reopen
 | Balance
-| Utxos.
+| Utxos
+| BalanceOf (fa fn : option Z)            (* balance(account_id=fa, network=fn) *)
+| UtxosOf (g : grp) (minconf : Z).        (* utxos(account_id, network, min_confirms) *)
 
 Inductive out :=
 | ONone
 | OBal (b : Z)
 | OUtxos (l : list utxo)
 | OSel (ok : bool).
+
+(* the entry balance(account_id, network) reads after its update: an argument left empty is the wallet's default
+   (an account left empty together with a non-default network is resolved from the key table by the library and
+   is not modelled: the histories always name the account then) *)
+Definition lookup_grp (s : ledger) (fa fn : option Z) : grp :=
+  (match fn with Some n => n | None => fst (l_default s) end,
+   match fa with Some a => a | None => snd (l_default s) end).
 
 (* The two switches select the variant of the code: (repaired _balance_update, strict delete). *)
 Definition step_gen (repaired strict : bool) (s : ledger) (o : op) : ledger * out :=
@@ -287,6 +296,9 @@ Definition step_gen (repaired strict : bool) (s : ledger) (o : op) : ledger * ou
   | Reopen => (mkL (l_keys s) (l_txs s) [] (l_default s) (l_bip32 s), ONone)
   | Balance => let s' := balance_update repaired f_all s in (s', OBal (reported s' (l_default s')))
   | Utxos => (s, OUtxos (utxos s (l_default s) 0))
+  | BalanceOf fa fn =>
+      let s' := balance_update repaired (mkF fa fn None) s in (s', OBal (reported s' (lookup_grp s' fa fn)))
+  | UtxosOf g minconf => (s, OUtxos (utxos s g minconf))
   end.
 
 (* The model the theorems are about mirrors the repository with fixes/C08-1 and fixes/C08-2 applied;
@@ -321,6 +333,14 @@ Definition store_respends (s : ledger) (o : op) : bool :=
   | Store _ d => existsb (fun to => spent_by_sent (l_txs s) (d_txid d) (o_n (fst to))) (d_outs d)
   | _ => false
   end.
+
+(* class predicate of the recorded finding "cross_account_output": the ledger holds an output of one of its keys in
+   a transaction filed under another (network, account) than the key's.  A transaction row has ONE account, the
+   balance per account and utxos(account) go by the row, the per-key balances by the key. *)
+Definition has_cross (s : ledger) : bool :=
+  existsb (fun t => existsb (fun o => match o_key o with
+                                      | Some k => has_key (l_keys s) k && negb (key_in_grp (l_keys s) k (t_grp t))
+                                      | None => false end) (t_outs t)) (l_txs s).
 
 Definition store_keys_ok (s : ledger) (d : txdata) : bool :=
   forallb (fun to => match o_key (fst to) with
